@@ -255,8 +255,11 @@ PROPS["C04"] = {
 PROPS["C10"]["level_text"] += (" C10c (frame locality, 23 statements over ~180 lemmas): the result of a decoder depends only on the visible bytes of the "
     "slice it is given, never on what the recycled buffer holds behind the frame — proved for every packet-header decoder (Ethernet, VLAN, ARP, IPv4, IPv6 and "
     "extension headers, ICMP, TCP, UDP, IGMP, DHCP options), matches and all match-field payloads, and for Parse on every message kind except flow-mod and "
-    "multipart reply (experimenter frames whose declared length fits the slice); with PROVED counterexamples where it is false (a header on 4..7 bytes, a vendor "
-    "frame shorter than its own length field, and a TLV-table reply whose body is shorter than 16 bytes: its reserved field is filled from the bytes behind the frame).")
+    "flow-stats replies — for flow-mods under the decidable in-frame condition FlowModInFrame (every instruction and action the loops reach lies inside the frame; a conformant "
+    "frame satisfies it, the over-read frame violates it), bundle-adds by induction over the nesting (C10c_parse_local3); with PROVED counterexamples where it is false (a header on 4..7 bytes, a vendor "
+    "frame shorter than its own length field, a TLV-table reply whose body is shorter than 16 bytes: its reserved field is filled from the bytes behind the frame, a flow-mod / "
+    "flow-stats reply whose last instruction declares more than the frame holds: its actions are decoded from behind the frame, goto-table / write-metadata decoders whose "
+    "outcome depends on the capacity alone).")
 PROPS["C10"]["level_text"] += (" C10d (regenerated facts): util/stream.go has exactly one send site on the Error channel, one conn.Read site and one "
     "reader goroutine, one parser call followed by the one send on Inbound, one hand-over site for full buffers and one recycle site after the one Reset — the "
     "premises under which the transition systems are an accurate picture (a second publication site, as in seed C10h, breaks the theorem).")
@@ -267,7 +270,10 @@ PROPS["C05"]["level_text"] += (" C05d (40 theorems, with an inventory of every k
 PROPS["C06"]["level_text"] += (" C06d (80 theorems): for 70 kinds with a constant, stored or header-computed size the model's Len() equals the definition regenerated from the current Go Len() body (tie T1) for every value.")
 PROPS["C02"]["level_text"] += (" C02c: the REAL specification walker (Spec.walk…, incl. minimum lengths, zero padding, alignment, type codes) accepts the model's "
     "encoding and returns one subtree per child, for every hello (any list of version-bitmap elements; whole message through Spec.walk), TLV-table-mod (any list "
-    "of maps), any list of bundle properties, and per action kind / bucket / group-mod / packet-out as far as the file states.")
+    "of maps), any list of bundle properties; 20 action kinds (output … set-field with any fixed-width match field, 10 Nicira kinds incl. note and controller) through the "
+    "interface dispatch, any bucket / group-mod (through the top-level walker) / packet-out action list of such actions; every fixed-width match field of the walker's "
+    "table ± mask, any match built by NewMatch + AddField; goto-table, write-metadata, meter, write/apply/clear-actions; and flowMod_topWalk_known: Spec.walk accepts "
+    "EVERY flow-mod (any command, DELETE without instructions) of such a match and such instructions and returns one node per field and per instruction.")
 PROPS["C03"]["level_text"] += (" C03c (API histories, induction over ALL call sequences): conntrack builder (flags accumulate, zone and table of the last call, "
     "ZoneImm clears the zone source, nested actions in call order — on the bytes at their offsets); NAT builder (flag setters, presence bit set iff the setter was "
     "called, value of the last call, optional parts in specification order whatever the call order, stored length = 16 + widths of the ranges present also with "
